@@ -419,6 +419,10 @@ func (s *session) newManifest(rec *sessionRecord, v *version) (err error) {
 		rec = &sessionRecord{}
 	}
 	s.fillRecord(rec, true)
+	// The snapshot lists every table of v, and v already contains the tables
+	// added by rec: listing those twice would also reference them twice, so
+	// that they are never removed once obsolete.
+	rec.resetAddedTables()
 	v.fillRecord(rec)
 
 	defer func() {
